@@ -28,6 +28,7 @@ struct Job {
     args: Vec<Vec<u8>>,
     clock: Option<i128>,
     mono: u64,
+    tick: u64,
     entropy: Option<Xo>,
 }
 struct Reply {
@@ -50,11 +51,13 @@ fn spawn_executor() -> Executor {
             let _ = std::collections::hash_map::RandomState::new();
             while let Ok(job) = jrx.recv() {
                 seams::set_clock_ns(job.clock);
+                seams::set_work_tick_ns(job.tick);
                 seams::set_mono_raw(job.mono);
                 seams::set_entropy(job.entropy);
                 let refs: Vec<&[u8]> = job.args.iter().map(|a| a.as_slice()).collect();
                 let out = job.lib.call(job.g, job.op, &refs);
                 let entropy = seams::set_entropy(None);
+                seams::set_work_tick_ns(0);
                 seams::set_clock_ns(None);
                 if rtx.send(Reply { out, entropy }).is_err() {
                     break;
@@ -128,6 +131,7 @@ pub fn call(lib: &dyn Lib, g: Grp, op: Op, args: &[&[u8]], lane: usize) -> Out {
         args: args.iter().map(|a| a.to_vec()).collect(),
         clock: seams::clock_ns(),
         mono: seams::mono_raw(),
+        tick: seams::work_tick_ns(),
         entropy: seams::set_entropy(None),
     };
     REMOTE_CALLS.with(|c| c.set(c.get() + 1));
